@@ -690,9 +690,6 @@ fn do_minimize(dfa: DFA) -> DFA {
                 } else {
                     worklist.insert(remaining_states_intern_id);
                 }
-                if group_id == intern_id {
-                    break;
-                }
             }
         }
     }
